@@ -525,6 +525,8 @@ func rulesC06(e *Engine, r *Report) {
 	e.checkCutsets(r, "R06.12")
 	// ---------------------------------------------------------------- R06.13
 	e.shareRule(r, "C20", "R20.2", "R06.13", "the cleaner does not take away what recovery needs: the companion of a validated, parked file is the only record a restart finds it by - the stray cleaner removes a companion only together with the stray partial of a LOGGED file (or on the strength of a log record with the companion's hash)")
+	// ---------------------------------------------------------------- R06.15
+	e.shareRule(r, "C15", "R15.5", "R06.15", "the stage that recovers is the stage that serves: the gatekeeper on which Recover is started at start-up is stored under the key requests look it up by (the source name, not its directory spelling) - otherwise a second stage is built over the same directories, ready at once, with an empty cache")
 }
 
 // checkRecoverReadiness: Recover keeps readiness cleared across every step and
